@@ -411,4 +411,17 @@ def LinAlg.build (kind : LUKind) (jac : Pattern) : LinAlg :=
     let (fw, bw) := solverRows P P
     { kind, A := P, Lp := P, Up := P, miRows := mozartInPlaceRows P, fw, bw }
 
+/-- separate-L/U variants with L and U stored in their own (possibly different) orders -/
+def LinAlg.buildMixed (kind : LUKind) (jac : Pattern) (cscL cscU : Bool) : LinAlg :=
+  let az := fun r c => jac.zero? r c
+  let (l, u) := match kind with
+    | .mozart => mozartSymbolic jac.n az
+    | _ => doolittleSymbolic jac.n az
+  let Lp := Pattern.mk' jac.n cscL jac.L l
+  let Up := Pattern.mk' jac.n cscU jac.L u
+  let (fw, bw) := solverRows Lp Up
+  match kind with
+  | .mozart => { kind, A := jac, Lp, Up, mInit := mozartInit jac Lp Up, mRows := mozartRows jac Lp Up, fw, bw }
+  | _ => { kind := .doolittle, A := jac, Lp, Up, dRows := doolittleRows jac Lp Up, fw, bw }
+
 end Micm
